@@ -24,6 +24,7 @@
 #include "zstd_compress_internal.h" /* MIN, ERROR, ZSTD_*, ZSTD_highbit32 */
 #include "zstd_ldm.h"
 #include "zstdmt_compress.h"
+#include "../common/zstd_verif.h"
 
 /* Guards code to support resizing the SeqPool.
  * We will want to resize the SeqPool to save memory in the future.
@@ -611,7 +612,9 @@ static void ZSTDMT_serialState_update(serialState_t* serialState,
         }
         if (serialState->params.fParams.checksumFlag && src.size > 0)
             XXH64_update(&serialState->xxhState, src.start, src.size);
+        ZSTD_VERIF_EV("mtSerial", serialState, jobID, src.size, serialState->params.ldmParams.enableLdm == ZSTD_ps_enable, serialState->params.fParams.checksumFlag, 0, 0);
     }
+    else { ZSTD_VERIF_EV("mtSerialSkipped", serialState, jobID, serialState->nextJobID, 0, 0, 0, 0); }
     /* Now it is the next jobs turn */
     serialState->nextJobID++;
     ZSTD_pthread_cond_broadcast(&serialState->cond);
@@ -631,6 +634,7 @@ static void ZSTDMT_serialState_ensureFinished(serialState_t* serialState,
         assert(ZSTD_isError(cSize)); (void)cSize;
         DEBUGLOG(5, "Skipping past job %u because of error", jobID);
         serialState->nextJobID = jobID + 1;
+        ZSTD_VERIF_EV("mtSerialForce", serialState, jobID, ZSTD_isError(cSize), 0, 0, 0, 0);
         ZSTD_pthread_cond_broadcast(&serialState->cond);
 
         ZSTD_PTHREAD_MUTEX_LOCK(&serialState->ldmWindowMutex);
@@ -761,6 +765,7 @@ static void ZSTDMT_compressionJob(void* jobDescription)
             ZSTD_PTHREAD_MUTEX_LOCK(&job->job_mutex);
             job->cSize += cSize;
             job->consumed = chunkSize * chunkNb;
+            ZSTD_VERIF_EV("mtJobChunk", job->serial, job->jobID, job->consumed, job->cSize, 0, 0, 0);
             DEBUGLOG(5, "ZSTDMT_compressionJob: compress new block : cSize==%u bytes (total: %u)",
                         (U32)cSize, (U32)job->cSize);
             ZSTD_pthread_cond_signal(&job->job_cond);   /* warns some more data is ready to be flushed */
@@ -799,6 +804,7 @@ _endJob:
     if (ZSTD_isError(job->cSize)) assert(lastCBlockSize == 0);
     job->cSize += lastCBlockSize;
     job->consumed = job->src.size;  /* when job->consumed == job->src.size , compression job is presumed completed */
+    ZSTD_VERIF_EV("mtJobEnd", job->serial, job->jobID, ZSTD_isError(job->cSize) ? -1 : (long long)job->cSize, job->src.size, 0, 0, 0);
     ZSTD_pthread_cond_signal(&job->job_cond);
     ZSTD_pthread_mutex_unlock(&job->job_mutex);
 }
@@ -1328,6 +1334,7 @@ size_t ZSTDMT_initCStream_internal(
     mtctx->inBuff.buffer = g_nullBuffer;
     mtctx->inBuff.filled = 0;
     mtctx->inBuff.prefix = kNullRange;
+    ZSTD_VERIF_EV("mtInit", &mtctx->serial, mtctx->roundBuff.capacity, mtctx->targetSectionSize, mtctx->targetPrefixSize, mtctx->params.nbWorkers, mtctx->jobIDMask, mtctx->params.ldmParams.enableLdm == ZSTD_ps_enable);
     mtctx->doneJobID = 0;
     mtctx->nextJobID = 0;
     mtctx->frameEnded = 0;
@@ -1416,11 +1423,16 @@ static size_t ZSTDMT_createCompressionJob(ZSTDMT_CCtx* mtctx, size_t srcSize, ZS
                 mtctx->params.fParams.checksumFlag = 0;
         }   }
 
+        ZSTD_VERIF_EV("mtJobCreate", &mtctx->serial, mtctx->nextJobID,
+                      src ? (long long)(src - mtctx->roundBuff.buffer) : -1, srcSize,
+                      mtctx->jobs[jobID].prefix.start ? (long long)((const BYTE*)mtctx->jobs[jobID].prefix.start - mtctx->roundBuff.buffer) : -1,
+                      mtctx->jobs[jobID].prefix.size, endFrame);
         if ( (srcSize == 0)
           && (mtctx->nextJobID>0)/*single job must also write frame header*/ ) {
             DEBUGLOG(5, "ZSTDMT_createCompressionJob: creating a last empty block to end frame");
             assert(endOp == ZSTD_e_end);  /* only possible case : need to end the frame with an empty last block */
             ZSTDMT_writeLastEmptyBlock(mtctx->jobs + jobID);
+            ZSTD_VERIF_EV("mtJobEmptyLast", &mtctx->serial, mtctx->nextJobID, 0, 0, 0, 0, 0);
             mtctx->nextJobID++;
             return 0;
         }
@@ -1433,10 +1445,12 @@ static size_t ZSTDMT_createCompressionJob(ZSTDMT_CCtx* mtctx, size_t srcSize, ZS
                 mtctx->nextJobID,
                 jobID);
     if (POOL_tryAdd(mtctx->factory, ZSTDMT_compressionJob, &mtctx->jobs[jobID])) {
+        ZSTD_VERIF_EV("mtJobPost", &mtctx->serial, mtctx->nextJobID, 1, 0, 0, 0, 0);
         mtctx->nextJobID++;
         mtctx->jobReady = 0;
     } else {
         DEBUGLOG(5, "ZSTDMT_createCompressionJob: no worker available for job %u", mtctx->nextJobID);
+        ZSTD_VERIF_EV("mtJobPost", &mtctx->serial, mtctx->nextJobID, 0, 0, 0, 0, 0);
         mtctx->jobReady = 1;
     }
     return 0;
@@ -1509,6 +1523,7 @@ static size_t ZSTDMT_flushProduced(ZSTDMT_CCtx* mtctx, ZSTD_outBuffer* output, u
             }
             output->pos += toFlush;
             mtctx->jobs[wJobID].dstFlushed += toFlush;  /* can write : this value is only used by mtctx */
+            ZSTD_VERIF_EV("mtFlush", &mtctx->serial, mtctx->doneJobID, toFlush, mtctx->jobs[wJobID].dstFlushed, cSize, srcConsumed == srcSize, 0);
 
             if ( (srcConsumed == srcSize)    /* job is completed */
               && (mtctx->jobs[wJobID].dstFlushed == cSize) ) {   /* output buffer fully flushed => free this job position */
@@ -1521,6 +1536,7 @@ static size_t ZSTDMT_flushProduced(ZSTDMT_CCtx* mtctx, ZSTD_outBuffer* output, u
                 mtctx->consumed += srcSize;
                 mtctx->produced += cSize;
                 mtctx->doneJobID++;
+                ZSTD_VERIF_EV("mtJobDone", &mtctx->serial, mtctx->doneJobID - 1, srcSize, cSize, 0, 0, 0);
         }   }
 
         /* return value : how many bytes left in buffer ; fake it to 1 when unknown but >0 */
@@ -1662,6 +1678,7 @@ static int ZSTDMT_tryGetInputRange(ZSTDMT_CCtx* mtctx)
         }
         ZSTDMT_waitForLdmComplete(mtctx, buffer);
         ZSTD_memmove(start, mtctx->inBuff.prefix.start, prefixSize);
+        ZSTD_VERIF_EV("mtWrap", &mtctx->serial, prefixSize, (long long)((const BYTE*)mtctx->inBuff.prefix.start - mtctx->roundBuff.buffer), 0, 0, 0, 0);
         mtctx->inBuff.prefix.start = start;
         mtctx->roundBuff.pos = prefixSize;
     }
@@ -1687,6 +1704,9 @@ static int ZSTDMT_tryGetInputRange(ZSTDMT_CCtx* mtctx)
     mtctx->inBuff.buffer = buffer;
     mtctx->inBuff.filled = 0;
     assert(mtctx->roundBuff.pos + buffer.capacity <= mtctx->roundBuff.capacity);
+    ZSTD_VERIF_EV("mtRange", &mtctx->serial, mtctx->roundBuff.pos, buffer.capacity,
+                  mtctx->inBuff.prefix.start ? (long long)((const BYTE*)mtctx->inBuff.prefix.start - mtctx->roundBuff.buffer) : -1,
+                  mtctx->inBuff.prefix.size, mtctx->roundBuff.capacity, 0);
     return 1;
 }
 
